@@ -10,11 +10,12 @@ loader = importlib.machinery.SourceFileLoader("check", os.path.join(os.getcwd(),
 spec = importlib.util.spec_from_loader("check", loader)
 m = importlib.util.module_from_spec(spec); loader.exec_module(m)
 m.gen_coqproject()
+open(".work-tags", "w").write(" ".join(["verif"] + m.claimed_tags()))
 PY
 timeout 3000 make -j16 -C coq
 mkdir -p .work/setup
 sed "s#=> /repo#=> ${VERIF_REPO:-/repo}#" harness/go.mod > .work/setup/go.mod
 cp "${VERIF_REPO:-/repo}/go.sum" .work/setup/go.sum
-(cd harness && timeout 900 go build -tags 'verif allprops' -modfile ../.work/setup/go.mod -o ../.work/setup/harness .)
-rm -rf .work/setup
+(cd harness && timeout 900 go build -tags "$(cat ../.work-tags)" -modfile ../.work/setup/go.mod -o ../.work/setup/harness .)
+rm -rf .work/setup .work-tags
 echo setup ok
